@@ -32,26 +32,17 @@ ANCHORS = {
 REGION_ID = {"d20KeysNotAccepted": "D20", "d23CwdMissing": "D23-flux", "d21NoMpi": "D21"}
 
 
-def run_cfg(o):
+def run_cfg(o, slow=False):
+    if slow:
+        o = dict(o, result_timeout=24, shutdown_timeout=24)
     fd, p = tempfile.mkstemp(suffix=".json", prefix="vh_cfg_")
     os.write(fd, json.dumps(o).encode())
     os.close(fd)
-    env = dict(os.environ)
-    env["PYTHONPATH"] = os.pathsep.join([os.environ.get("VERIF_REPO", "/repo"), os.path.join(VERIF, "harness"), os.path.join(VERIF, "harness", "standins")])
-    env["PATH"] = os.path.join(VERIF, "harness", "standins", "bin") + os.pathsep + env.get("PATH", "")
     try:
-        pr = subprocess.Popen([sys.executable, "-m", "vh.config_runner", p], env=env, stdout=subprocess.PIPE, stderr=subprocess.DEVNULL,
-                              stdin=subprocess.DEVNULL, text=True, start_new_session=True)
-        try:
-            so, _ = pr.communicate(timeout=50)
-        except subprocess.TimeoutExpired:
-            so = ""
-        try:
-            os.killpg(pr.pid, 9)
-        except Exception:  # noqa
-            pass
-        lines = [l for l in so.splitlines() if l.startswith("{")]
-        return json.loads(lines[-1]) if lines else {"error": "no output"}
+        from .common import finish_json_child, start_json_child
+
+        o2 = finish_json_child(start_json_child(["vh.config_runner", p]), 160 if slow else 60)
+        return o2 if o2 is not None else {"error": "no output"}
     finally:
         os.unlink(p)
 
@@ -110,7 +101,9 @@ CORPUS = [
     {"backend": "local", "block_allocation": False, "disable_dependencies": False, "max_cores": 3, "rd": {"cores": 2}, "percall": {"threads_per_core": 2}},  # D10, executor-level cores (fixed)
     {"backend": "local", "block_allocation": False, "disable_dependencies": True, "max_cores": 3, "rd": {"cores": 2}, "percall": {"threads_per_core": 2}},
     {"backend": "local", "block_allocation": False, "disable_dependencies": True, "max_cores": 0, "rd": {"cores": 0}},
-    {"backend": "local", "block_allocation": False, "disable_dependencies": False, "percall": {"unknown_key": True}},        # D20
+    {"backend": "local", "block_allocation": False, "disable_dependencies": False, "percall": {"unknown_key": True}},        # D20 (fixed)
+    {"backend": "local", "block_allocation": True, "disable_dependencies": False, "plot": True, "rd": {"unknown_key": True}},
+    {"backend": "local", "block_allocation": False, "disable_dependencies": True, "percall": {"gpus_per_core": 1}},
     {"backend": "local_submission", "block_allocation": False, "disable_dependencies": False},                               # D22 (fixed)
     {"backend": "local", "block_allocation": False, "disable_dependencies": False, "rd": {"cwd": "missing"}},                # D23 (fixed)
     {"backend": "slurm_allocation", "block_allocation": False, "disable_dependencies": True, "rd": {"cores": 2, "threads_per_core": 2, "slurm_cmd_args": "nonempty"}},
@@ -129,6 +122,23 @@ def body(ctx: Ctx):
     model = m.ask_many([dict(op="config_decide", env_ncpu=ncpu, **c) for c in cfgs])
     with ThreadPoolExecutor(max_workers=16) as pool:
         outs = list(pool.map(run_cfg, cfgs))
+    # anything that looks wrong is decided by time limits in part (a loaded machine is slow): run it again, alone, with
+    # five times the limits, and judge that run
+    def suspicious(mo, out):
+        if "error" in out:
+            return True
+        if out["construct"] != mo.get("construct") or (out["construct"] is None and out["submit"] != mo.get("submit")):
+            return True
+        if mo.get("construct") is None and mo.get("submit") is None:
+            ran = out["result"] == "ok" and out["shutdown"] == "returned"
+            return ran != bool(mo.get("runnable"))
+        return False
+
+    redo = [k for k, (mo, out) in enumerate(zip(model, outs)) if suspicious(mo, out)][:12]
+    with ThreadPoolExecutor(max_workers=4) as pool:
+        for k, o2 in zip(redo, pool.map(lambda k: run_cfg(cfgs[k], slow=True), redo)):
+            outs[k] = o2
+            ctx.count("rerun_with_longer_limits")
     diffs, fails = [], []
     known = {}
     repo = os.path.realpath(os.environ.get("VERIF_REPO", "/repo"))
